@@ -91,7 +91,10 @@ TaikoScan(ws, k, take, nd, mc) ==
 OneShot(mode, ws, take) ==
   LET n == Len(ws) IN
   CASE mode = "taiko" ->
-         LET sc  == TaikoScan(ws, 1, take, 0, 0)
+         LET hits == SumTo(ws, n)[1]
+             \* once all hits are passed the play covers the whole map
+             tk  == IF take > 0 /\ take >= hits THEN UNLIMITED ELSE take
+             sc  == TaikoScan(ws, 1, tk, 0, 0)
              \* create_difficulty_objects returns early (no -1) when fewer than two objects
              nd1 == IF n >= 2 /\ take > 0 /\ sc.nd > 0 THEN sc.nd - 1 ELSE sc.nd
              nd2 == SatSub(nd1, 1)
@@ -108,28 +111,22 @@ OneShot(mode, ws, take) ==
 Total(mode, ws) == IF mode = "taiko" THEN SumTo(ws, Len(ws))[1] ELSE Len(ws)
 
 -----------------------------------------------------------------------------
-(* Machines. State: idx, cnt, proc (ghost), plus taiko's extras.           *)
+(* Machines. State: idx, cnt, proc (ghost), plus taiko's pos.              *)
 (* A call returns [st, some].  `panic` marks a usize underflow.            *)
 
 NDiff(mode, ws) == IF mode = "taiko" THEN SatSub(Len(ws), 2) ELSE SatSub(Len(ws), 1)
-
-TaikoFirstCombos(ws) ==                   \* enum FirstTwoCombos
-  LET a == IF Len(ws) >= 1 THEN (IF ws[1][1] = 1 THEN "T" ELSE "F") ELSE "N"
-      b == IF Len(ws) >= 2 THEN (IF ws[2][1] = 1 THEN "T" ELSE "F") ELSE "N"
-  IN  IF a = "N" \/ (a = "F" /\ b # "T") THEN "None"
-      ELSE IF a = "T" /\ b # "T" THEN "OnlyFirst"
-      ELSE IF a = "F" /\ b = "T" THEN "OnlySecond"
-      ELSE "Both"
 
 New(mode, ws) ==
   [idx |-> 0, proc |-> 0, panic |-> FALSE,
    cnt |-> CASE mode \in {"osu", "mania"} -> IF Len(ws) > 0 THEN ws[1] ELSE Zero5
              [] OTHER -> Zero5,
-   fc  |-> IF mode = "taiko" THEN TaikoFirstCombos(ws) ELSE "-"]
+   pos |-> 0]
 
-(* len(): diff_objects.len() + 1 - idx ; taiko: total_hits - idx.  -1 = underflow *)
+(* len(): 0 without units, else diff_objects.len() + 1 - idx ;               *)
+(* taiko: total_hits - idx.  -1 = usize underflow                           *)
 LenOf(mode, ws, s) ==
-  LET full == IF mode = "taiko" THEN Total(mode, ws) ELSE NDiff(mode, ws) + 1
+  LET full == IF mode = "taiko" THEN Total(mode, ws)
+              ELSE IF Len(ws) = 0 THEN 0 ELSE NDiff(mode, ws) + 1
   IN IF full >= s.idx THEN full - s.idx ELSE -1
 
 ---- \* osu / mania / catch ----
@@ -152,7 +149,7 @@ StdLoop(mode, ws, s, j, k) ==             \* for curr in diff.skip(..).take(k), 
                          !.idx = @ + 1],
                j + 1, k - 1)
 
-StdNth(mode, ws, s, n) ==
+StdNthClamped(mode, ws, s, n) ==
   IF LenOf(mode, ws, s) < 0 /\ OverflowChecks THEN [st |-> [s EXCEPT !.panic = TRUE], some |-> FALSE]
   ELSE
   LET skip  == SatSub(s.idx, 1)
@@ -165,57 +162,51 @@ StdNth(mode, ws, s, n) ==
                ELSE [take |-> take0, st |-> s]
   IN StdNext(mode, ws, StdLoop(mode, ws, pre.st, skip, pre.take))
 
+(* Iterator::nth: fewer than n+1 values left => consume them all, return None *)
+StdNth(mode, ws, s, n) ==
+  LET remaining == LenOf(mode, ws, s) IN
+  IF remaining >= 0 /\ n >= remaining
+  THEN [st |-> IF remaining >= 1 THEN StdNthClamped(mode, ws, s, remaining - 1).st ELSE s, some |-> FALSE]
+  ELSE StdNthClamped(mode, ws, s, n)
+
 ---- \* taiko ----
+(* State extras: pos = hit objects passed (hits or not).  The first two    *)
+(* objects have no difficulty object; difficulty object j belongs to       *)
+(* object j + 2.  proc counts the difficulty objects handed to the skills. *)
 
-TaikoDiffIsHit(ws, j) == ws[j + 2][1] = 1          \* difficulty object j (1-based) belongs to object j+2
+TaikoNextObject(ws, s) ==                 \* process_next_object: [st, ok, hit]
+  IF s.pos >= Len(ws) THEN [st |-> s, ok |-> FALSE, hit |-> FALSE]
+  ELSE [st |-> [s EXCEPT !.pos = @ + 1, !.proc = IF s.pos >= 2 THEN @ + 1 ELSE @],
+        ok |-> TRUE, hit |-> ws[s.pos + 1][1] = 1]
 
-RECURSIVE TaikoLoopToHit(_, _)            \* loop { curr = iter.next()?; process; if hit { combo += 1; break } }
-TaikoLoopToHit(ws, s) ==
-  IF s.proc >= NDiff("taiko", ws) THEN [st |-> s, ok |-> FALSE]
-  ELSE LET s2 == [s EXCEPT !.proc = @ + 1]
-       IN IF TaikoDiffIsHit(ws, s.proc + 1)
-          THEN [st |-> [s2 EXCEPT !.cnt = Add5(@, <<1,0,0,0,0>>)], ok |-> TRUE]
-          ELSE TaikoLoopToHit(ws, s2)
+RECURSIVE TaikoDrain(_, _)
+TaikoDrain(ws, s) == LET r == TaikoNextObject(ws, s) IN IF r.ok THEN TaikoDrain(ws, r.st) ELSE s
 
-SetCombo(s, c) == [s EXCEPT !.cnt = <<c, 0, 0, 0, 0>>]
+RECURSIVE TaikoNextHit(_, _)              \* process_next_hit: [st, ok]
+TaikoNextHit(ws, s) ==
+  LET r == TaikoNextObject(ws, s) IN
+  IF ~r.ok THEN [st |-> r.st, ok |-> FALSE]
+  ELSE IF ~r.hit THEN TaikoNextHit(ws, r.st)
+  ELSE LET s2 == [r.st EXCEPT !.cnt = Add5(@, <<1,0,0,0,0>>), !.idx = @ + 1]
+       IN [st |-> IF s2.idx = Total("taiko", ws) THEN TaikoDrain(ws, s2) ELSE s2, ok |-> TRUE]
 
-TaikoNext(ws, s) ==
-  IF s.idx >= 2 THEN
-     LET r == TaikoLoopToHit(ws, s)
-     IN IF r.ok THEN [st |-> [r.st EXCEPT !.idx = @ + 1], some |-> TRUE]
-        ELSE [st |-> r.st, some |-> FALSE]
-  ELSE IF NDiff("taiko", ws) = 0 THEN [st |-> s, some |-> FALSE]
-  ELSE LET c == CASE s.fc = "OnlyFirst" -> 1
-                  [] s.fc = "OnlySecond" /\ s.idx = 1 -> 1
-                  [] s.fc = "Both" /\ s.idx = 0 -> 1
-                  [] s.fc = "Both" /\ s.idx = 1 -> 2
-                  [] OTHER -> s.cnt[1]
-       IN [st |-> [SetCombo(s, c) EXCEPT !.idx = @ + 1], some |-> TRUE]
+TaikoNext(ws, s) == LET r == TaikoNextHit(ws, s) IN [st |-> r.st, some |-> r.ok]
 
 RECURSIVE TaikoTakeLoop(_, _, _)
 TaikoTakeLoop(ws, s, k) ==
   IF k = 0 THEN [st |-> s, ok |-> TRUE]
-  ELSE LET r == TaikoLoopToHit(ws, s)
-       IN IF ~r.ok THEN [st |-> r.st, ok |-> FALSE]
-          ELSE TaikoTakeLoop(ws, [r.st EXCEPT !.idx = @ + 1], k - 1)
+  ELSE LET r == TaikoNextHit(ws, s)
+       IN IF ~r.ok THEN r ELSE TaikoTakeLoop(ws, r.st, k - 1)
+
+TaikoNthInner(ws, s, n) ==
+  LET r == TaikoTakeLoop(ws, s, n)
+  IN IF ~r.ok THEN [st |-> r.st, some |-> FALSE] ELSE TaikoNext(ws, r.st)
 
 TaikoNth(ws, s, n) ==
-  IF LenOf("taiko", ws, s) < 0 /\ OverflowChecks THEN [st |-> [s EXCEPT !.panic = TRUE], some |-> FALSE]
-  ELSE
-  LET take0 == IF LenOf("taiko", ws, s) < 0 THEN n       \* wrapped: min(n, huge)
-               ELSE Min(n, SatSub(LenOf("taiko", ws, s), 1))
-      fcv(one) == CASE s.fc = "None" -> s.cnt[1]
-                    [] s.fc = "OnlyFirst" -> 1
-                    [] s.fc = "OnlySecond" -> IF one THEN s.cnt[1] ELSE 1
-                    [] s.fc = "Both" -> IF one THEN 1 ELSE 2
-      pre == IF s.idx >= 2 \/ take0 = 0 THEN [take |-> take0, st |-> s]
-             ELSE IF take0 = 1 /\ s.idx = 0
-                  THEN [take |-> 0, st |-> [SetCombo(s, fcv(TRUE)) EXCEPT !.idx = 1]]
-             ELSE IF s.idx = 0
-                  THEN [take |-> take0 - 2, st |-> [SetCombo(s, fcv(FALSE)) EXCEPT !.idx = 2]]
-             ELSE [take |-> take0 - 1, st |-> [SetCombo(s, fcv(FALSE)) EXCEPT !.idx = 2]]
-      r == TaikoTakeLoop(ws, pre.st, pre.take)
-  IN IF ~r.ok THEN [st |-> r.st, some |-> FALSE] ELSE TaikoNext(ws, r.st)
+  LET remaining == LenOf("taiko", ws, s) IN
+  IF n >= remaining
+  THEN [st |-> IF remaining >= 1 THEN TaikoNthInner(ws, s, remaining - 1).st ELSE s, some |-> FALSE]
+  ELSE TaikoNthInner(ws, s, n)
 
 ---- \* dispatch ----
 
@@ -232,6 +223,11 @@ View(mode, s) == [cnt |-> IF mode = "mania" THEN [s.cnt EXCEPT ![1] = s.idx] ELS
 (* What a caller can observe after a call (public API + the idx/proc hook). *)
 Obs(mode, ws, r) == [some |-> r.some, len |-> LenOf(mode, ws, r.st), cnt |-> View(mode, r.st).cnt,
                      idx |-> r.st.idx, proc |-> r.st.proc]
+
+(* The gradual performance wrapper clamps n to the remaining objects.       *)
+PerfNth(mode, ws, s, n) ==
+  LET l == LenOf(mode, ws, s)
+  IN DoNth(mode, ws, s, IF l < 0 THEN n ELSE Min(n, SatSub(l, 1)))
 
 (* Gradual performance: nth(state, n) = inner.nth(n)? then the tuple handed *)
 (* to the one-shot performance builder: attributes, passed_objects = idx.   *)
